@@ -3,7 +3,7 @@ import LMV.Driver.Util
 
 /-
   Driver of C07: see harness/src/c07.rs for the case-line format.
-  `c07 <f32|u8> <backend> <C> <max|argmax|threshold> <rows> <max_index> <t|-> <impl|-> <cells…>`
+  `c07 <f32|u8> <backend>[+c|+e|+s<k>|+l<k>] <C> <max|argmax|threshold> <rows> <max_index> <t|-> <impl|-> <cells…>`
 -/
 namespace LMV.Driver.C07
 open LMV LMV.Maximum LMV.Driver
@@ -162,6 +162,9 @@ def handle (toks : List String) : String :=
   match toks with
   | "c07e2e" :: _ => "oracle-only"   -- end-to-end stream decided by the oracle; its Lean side is LMV.Props.Bridge
   | "c07" :: ty :: backend :: c :: op :: rows :: mi :: t :: impl :: cells =>
+    -- `<backend>+c`, `+e`, `+s<k>`, `+l<k>`: the matrix reached the call through `clone()` / `clone_from()`
+    -- into an empty / smaller / larger buffer; a copy is the same matrix, so the model is the same
+    let backend := (backend.splitOn "+").headD backend
     let C := parseNat! c
     let rows := parseNat! rows
     let mi := parseNat! mi
